@@ -3,7 +3,7 @@
 //! case: [mode; drv (0 io_uring, 1 polling); a; b; c; seed]
 //!   mode 1 (stress)   a = K waker threads, b = R wakes each, c = pause scale.
 //!                     A real Proactor; the main thread loops `poll(Some(3 s))`;
-//!                     every wake must be followed by a poll return within 1 s.
+//!                     every wake must be followed by a poll return within 2.5 s.
 //!   mode 2 (window)   a = scheduling point of Driver::poll (1 after reset, 2 between
 //!                     the two set_awake, 3 just before entering the kernel): the
 //!                     driver thread is parked there, the remote wake is performed,
@@ -175,7 +175,7 @@ fn stress(drv: u64, k: u64, rounds: u64, scale: u64, seed: u64) -> Result<Vec<u6
             Some(r) => {
                 let lat = (r - t) / 1000;
                 max_lat = max_lat.max(lat);
-                if lat > 1000 {
+                if lat > 2500 {
                     bad += 1;
                 }
             }
@@ -228,7 +228,7 @@ fn window(drv: u64, point: u64) -> Result<Vec<u64>, BadCase> {
     let reached = helper.join().unwrap_or(false);
     verif::block(point, false);
     drop(p);
-    let mut out = vec![2, drv, point as u64, reached as u64, elapsed.min(100_000), (elapsed < 1000) as u64];
+    let mut out = vec![2, drv, point as u64, reached as u64, elapsed.min(100_000), (elapsed < 1700) as u64];
     encode_log(&mut out);
     Ok(out)
 }
@@ -471,7 +471,7 @@ fn executor(drv: u64, sub: u64, q: u64, c: u64, seed: u64) -> Result<Vec<u64>, B
                 let (recs, stuck) = join_wakers(hs, drv, Duration::from_secs(5));
                 let all: Vec<_> = recs.into_iter().flatten().collect();
                 // all wake() calls have returned
-                let missing = missing_after(&all, Duration::from_secs(2));
+                let missing = missing_after(&all, Duration::from_secs(4));
                 (all.len() as u64 + stuck, missing + stuck)
             });
             with_runtime(drv, q as usize, ntasks, false, ctl)?
@@ -498,7 +498,7 @@ fn executor(drv: u64, sub: u64, q: u64, c: u64, seed: u64) -> Result<Vec<u64>, B
                 let _ = go.send(());
                 // a wake() that never returns (queue full, runtime asleep) is a lost wake too
                 let (all, stuck) = join_wakers(hs, drv, Duration::from_secs(3));
-                let missing = missing_after(&all, Duration::from_secs(2));
+                let missing = missing_after(&all, Duration::from_secs(4));
                 (all.len() as u64 + stuck, missing + stuck)
             });
             with_runtime(drv, q as usize, ntasks, true, ctl)?
@@ -535,7 +535,7 @@ fn executor(drv: u64, sub: u64, q: u64, c: u64, seed: u64) -> Result<Vec<u64>, B
                 xv::block(xv::REMOTE_SPIN_RETRY, false);
                 let _ = h.join();
                 all.push((last, b_before));
-                let missing = missing_after(&all, Duration::from_millis(1500));
+                let missing = missing_after(&all, Duration::from_secs(3));
                 (all.len() as u64, missing)
             });
             let r = with_runtime(drv, q as usize, q as usize + 1, true, ctl);
